@@ -272,4 +272,26 @@ PROPS = {
             {"pkg": S, "test": "TestVerifC06", "quick": (16, 120), "thorough": (16, 12000), "timeout_q": 1500},
         ],
     },
+    "C10": {
+        "level": "exploration",
+        "claim": ("Generated policy programs (defined sets of all six kinds; 1-6 statements with any subset of 15 condition types and "
+                  "9 action types; up to three policies; assignments for global import and two peers' export with either default) "
+                  "are loaded through the configuration structures into a real RoutingPolicy; 1-5 generated routes (IPv4/IPv6, "
+                  "local/iBGP/eBGP source, AS_PATH with sets and confederation segments, three kinds of communities, list attributes "
+                  "with spare capacity) go through import and then both exports, twice. Verdict and resulting attributes must equal "
+                  "those of a plain interpreter of docs/sources/policy.md written in the check. After every application (and after "
+                  "applications of a canary policy that adds unique values to every list attribute) the stored route and every "
+                  "result already handed out are rendered again and must be unchanged. Policies, statements, as-path sets and "
+                  "assignments are read back and compared with the configuration."),
+        "note": ("Mask-length ranges start at the entry's own prefix length; values 0 for local-pref-eq / med-eq / set-local-pref "
+                 "(the configuration's 'absent') are not generated; set contents other than as-path sets and the API rendering of "
+                 "policies are compared by C18; prefix sets of RTC prefixes and tag sets are not generated."),
+        "technique": "property-based testing (rapid) of policy programs against a reference interpreter of the documented model; metamorphic non-interference check with canary applications",
+        "rule": ("non-trivial when at least three verdicts were compared in the case and at least one application changed attributes; "
+                 "distinct by case hash"),
+        "assumptions": [],
+        "units": [
+            {"pkg": T, "test": "TestVerifC10", "quick": (16, 2500), "thorough": (16, 250000), "timeout_q": 900},
+        ],
+    },
 }
